@@ -364,6 +364,13 @@ def stage_edges(ctx: Ctx, progs):
                         inside_self = True
                         break
                     q = q.parent
+                if inside_self and (l, c) == (el, ec) and l - 1 == sp[0] and c == bcol:
+                    # an empty child exactly at the spot (e.g. an empty Constant of an f-string format spec): it must stay empty,
+                    # whether it stays before or moves after the insertion is a tie the property does not judge
+                    got = enc.node_pos(x)
+                    if got not in ((l, c, el, ec), (l, c + dbytes, el, ec + dbytes)):
+                        bad.append((type(x).__name__, before[id(x)], got, 'empty node at the spot: stays or moves as a whole'))
+                    continue
                 if inside_self:
                     exp = mv(l, c, True) + mv(el, ec, False)   # child of self: start at spot moves, end at spot stays
                 else:
